@@ -770,7 +770,7 @@ def absent_data(ctx, rid):
                 ctx.violated(rid, fn, "when the payload file is absent nothing stands in for it: its pieces are skipped instead of being compared as zeros, so a removed file does not lower the result", st.test)
                 continue
             ctx.holds(rid, fn, "absent file: %s produces a zero-filled stand-in of the recorded length" % norm(si)[:60], st.test)
-    ctx.floor("existence tests on payload paths in the checkers", 2, n)
+    ctx.floor("existence tests on payload paths in the checkers", 1, n)
 
 
 # ------------------------------------------------------------------------------------------ R5 digest pairing
@@ -1499,4 +1499,4 @@ def existing_files_are_read(ctx, rid):
             extra = [a for a in atoms if a not in ex]
             ctx.decide(rid, fn, not extra, "reader vs zero stand-in is chosen by existence alone",
                        "a file that exists is replaced by the all-zero stand-in when `%s` fails: the intact pieces of a truncated or grown file are reported as failed, so the percentage is below the true share" % " / ".join(norm(a) for a in extra), st.test)
-    ctx.floor("reader selection tests", 2, n)
+    ctx.floor("reader selection tests", 1, n)
